@@ -114,4 +114,51 @@ theorem route_passErr (h : Storage) (key : String) : (route h key).pe = true →
     simp [h1, a, b] at hpe
   · simpa using h1
 
+
+/-- The prefix tables of the facade contain every key family declared cross-node (as a shared or a
+shared-and-persisted prefix). -/
+def TablesCover (h : Storage) : Prop :=
+  ∀ p ∈ declaredCrossNode, p ∈ h.config.SharedPrefixes ∨ p ∈ h.config.SharedPersistentPrefixes
+
+instance (h : Storage) : Decidable (TablesCover h) := by unfold TablesCover; exact inferInstance
+
+/-- EVERY key of a declared cross-node family is served by the shared cache when one is configured. -/
+theorem declared_ck_shared (h : Storage) (key : String) (wf : WFStorage h) (hs : h.sharedCache = some .shared)
+    (ht : TablesCover h) (hd : isDeclaredCrossNode key = true) : (route h key).ck = .shared := by
+  unfold isDeclaredCrossNode at hd
+  obtain ⟨p, hp, hpre⟩ := List.any_eq_true.1 hd
+  refine route_shared_uses_shared_cache h key wf hs ?_
+  by_cases hsp : Storage.isSharedPersistent h key = true
+  · right; simp [Storage.getCategory, hsp]
+  · have hsh : Storage.isShared h key = true := by
+      rcases ht p hp with hin | hin
+      · simp only [Storage.isShared]
+        have : (h.config.SharedPrefixes.any fun x => Tunnox.PredPrelude.hasPrefix key x) = true :=
+          List.any_eq_true.2 ⟨p, hin, hpre⟩
+        simp [this]
+      · exfalso; apply hsp
+        simp only [Storage.isSharedPersistent]
+        have : (h.config.SharedPersistentPrefixes.any fun x => Tunnox.PredPrelude.hasPrefix key x) = true :=
+          List.any_eq_true.2 ⟨p, hin, hpre⟩
+        simp [this]
+    left; simp [Storage.getCategory, hsp, hsh]
+
+/-- A trace that respects the route of a key served by the shared cache never touches a node-local cache. -/
+theorem no_local_of_holdsRoute (R : Route) (ths : List ThObs) (tr : List Ev) (hck : R.ck = .shared)
+    (h : holdsRoute R ths tr = true) : tr.all (fun e => e.tier != .cache) = true := by
+  unfold holdsRoute at h
+  rw [List.all_eq_true] at h ⊢
+  intro e he
+  have := h e he
+  cases hth : ths[e.tid]? with
+  | none => simp [hth] at this
+  | some t =>
+    simp only [hth] at this
+    cases hop : t.op <;> simp [hop, hck] at this <;>
+      first
+      | (rw [this]; decide)
+      | (rcases this with h1 | h1
+         · rw [h1]; decide
+         · rw [h1.2]; decide)
+
 end Tunnox.C14
